@@ -171,6 +171,10 @@ def c04_cases(tier, rng):
     for (n, e), cb in rotate(rnd, combos, 1, rng):
         yield apply(n, e, cb)
     yield from nspos_small_budget(tier, rng, 3000 if tier == "quick" else 30000, {})
+    # fractional NodeSpacing (0.25, 0.5, 1.75, 2.5) with odd widths, for the positioners that compute in floating point
+    combos_f = grid(p1=K.P1S, p2=K.P2S, p4=["sink", "valign", "pack"], p5=["straight"], size=["all", "fixed"], pat=["odd", "het"], ns=[1, 2, 7, 10], nsd=[4])
+    for (n, e), cb in rotate(random_inputs(rng, 1500 if tier == "quick" else 15000, 4, 16), combos_f, 1, rng):
+        yield apply(n, e, cb)
     # structured families: the block structures that make the positioners iterate (staircases of blocks, ladders,
     # caterpillars, trees, grids, complete bipartite layers) do not occur in small exhaustive or random inputs
     shaped = [K.staircase(k, sf, fan) for k in range(2, 9 if tier == "quick" else 13) for sf in (True, False) for fan in (1, 2)]
@@ -210,7 +214,7 @@ def spline_cases(tier, rng, count):
 
 def c06_cases(tier, rng):
     combos = grid(p1=K.P1S, p2=K.P2S, p4=K.P4_SIZE_AWARE, p5=["straight", "poly", "ortho"],
-                  size=["all", "fixed"], pat=["het", "het2", "odd"], virt=[0, 1], ns=[2, 0, 7])
+                  size=["all", "fixed"], pat=["het", "het2", "odd"], virt=[0, 1], ns=[2, 0, 7], nsd=[1, 4])
     inputs = [(n, e) for n, e, r in K.family(fam_E(tier))]
     for (n, e), cb in rotate(inputs, combos, 4 if tier == "quick" else 6, rng):
         yield apply(n, e, cb)
@@ -340,6 +344,7 @@ def c01_cases(tier, rng):
             c["names"] = NAME_STYLES[style](n)
         c["seed"] = rng.randrange(1 << 30)
         c["oo"] = rng.choice([0, 0, 1])
+        c["nsd"] = rng.choice([1, 1, 4, 2])      # NodeSpacing ns, ns/4 or ns/2: 0.25, 0.5, 2.5, 5 ...
         c["budgetms"] = budget_ms(n, len(e), c["p4"])
         return c
     inputs = [(n, e) for n, e, _ in K.family(fam_E(tier))]
